@@ -24,6 +24,13 @@ def gen_case(seed):
         ops.append({"op": "serve"})
     frames = []
     nctx = 0
+    if use_http and r.random() < 0.3:
+        # two frames with byte-identical content (one blob), then one of them goes - removed, or evicted by head:1
+        ttl = r.choice(["", "?ttl=head:1"])
+        for _ in range(2):
+            ops.append({"op": "http", "method": "POST", "target": "/c" + ttl, "body": b"shared-content", "meta": None})
+            frames.append(len(ops) - 1)
+        ops.append({"op": "remove", "id": {"ref": frames[0]}} if not ttl else {"op": "drain"})
     for i in range(r.randint(3, 14)):
         k = r.random()
         if k < 0.1:
@@ -37,8 +44,10 @@ def gen_case(seed):
                         "ttl": r.choice([None, "head:1", "head:2", "forever", "time:3600000"]), "meta": meta, "hash": None})
             frames.append(len(ops) - 1)
         elif k < 0.65 and use_http:
-            body = bytes(r.randrange(256) for _ in range(r.choice([1, 50, 9000])))
-            ops.append({"op": "http", "method": "POST", "target": "/c", "body": body, "meta": None})
+            # now and then the same bytes twice: frames that share one blob; a removal or eviction of one of them must
+            # leave the other's content where it is
+            body = r.choice([b"shared-content", b"shared-content", bytes(r.randrange(256) for _ in range(r.choice([1, 50, 9000])))])
+            ops.append({"op": "http", "method": "POST", "target": "/c" + r.choice(["", "", "?ttl=head:1"]), "body": body, "meta": None})
             frames.append(len(ops) - 1)
         elif k < 0.78 and frames:
             ops.append({"op": "remove", "id": {"ref": r.choice(frames)}})
@@ -244,6 +253,12 @@ def run_case(case, torn=False):
             res.learn(i, op, obs)
             if op["op"] == "append" and isinstance(obs.get("ok"), dict):
                 known_ids.add(obs["ok"]["id"])
+            if op["op"] == "http" and op.get("method") == "POST" and obs.get("status") == 200:
+                try:     # a frame appended over HTTP can be removed by a later op of the case
+                    fr = H.parse_frame_json(json.loads(bytes.fromhex(obs["body_hex"])))
+                    res.ids[i] = fr["id"]; res.frames[i] = fr; known_ids.add(fr["id"])
+                except Exception:
+                    pass
             acked.append({"op": op, "obs": obs})
             if i == case["kill_at"]:
                 w.p.send_signal(signal.SIGKILL)
